@@ -112,3 +112,13 @@ End Runs.
 (* range-for over an input sequence *)
 Fixpoint foldM {A B} (f : B -> A -> res B) (l : list A) (b : B) : res B :=
   match l with [] => Ok b | x :: r => do b1 <- f b x; foldM f r b1 end.
+
+(* while / for loops (with break): [c] is the condition, [f] the body, which answers whether to
+   go on; running out of fuel is reported as undefined behaviour, so a no-UB theorem about a
+   generated method also says its loops end within the bound the schema states *)
+Fixpoint whileB {B} (fuel : nat) (c : B -> res bool) (f : B -> res (bool * B)) (b : B) : res B :=
+  match fuel with
+  | 0 => UB "loop fuel exhausted"
+  | S n => do t <- c b;
+           if t then (do r <- f b; let '(go, b1) := r in if go then whileB n c f b1 else Ok b1) else Ok b
+  end.
